@@ -8,6 +8,7 @@ import (
 
 func init() {
 	vsymHarnesses["HarnessC16Store"] = HarnessC16Store
+	vsymHarnesses["HarnessC16Coll"] = HarnessC16Coll
 }
 
 // HarnessC16Store: two clients, one command each, against the bundled example store; the engine
@@ -17,7 +18,7 @@ func HarnessC16Store() {
 	vsymTag("pair", a+"+"+b)
 	vsymTag("store", "example")
 	vsymSchedBound(vsymParamInt("preempt", 2))
-	vsymSchedKinds("syncmap,go,sharedwrite")
+	vsymSchedKinds("syncmap,go,sharedwrite,lock")
 	vsymUnwind(400)
 	s := NewServer()
 	db, _ := s.GetDatabase(0)
@@ -68,6 +69,227 @@ func HarnessC16Store() {
 	}
 	ab := same(ca.Out(), ra1, errA) && same(cb.Out(), rb1, errB) && final == s1
 	ba := same(ca.Out(), ra2, errA) && same(cb.Out(), rb2, errB) && final == s2
+	vsymAssert(ab || ba, "history-equals-a-sequential-order")
+	vsymCover("end")
+}
+
+// ---- collection commands of the example store ----
+
+// c16cstate is the sequential model state for the collection pairs: one list l, one hash h, one set s, one sorted set z.
+type c16cstate struct {
+	l  string // list elements, one byte each, head first
+	hf string // hash fields (one byte each), hv values aligned
+	hv string
+	s  string // set members (one byte each, no duplicates, insertion order irrelevant)
+	z  string // zset members ascending by score; scores are the digits in zs
+	zs string
+}
+
+var c16CollRequests = map[string][]string{
+	"LPUSHa": {"LPUSH", "l", "a"}, "LPUSHb": {"LPUSH", "l", "b"}, "RPUSHc": {"RPUSH", "l", "c"}, "LPOP": {"LPOP", "l"}, "RPOP": {"RPOP", "l"}, "LLEN": {"LLEN", "l"},
+	"HSETf": {"HSET", "h", "f", "1"}, "HSETg": {"HSET", "h", "g", "2"}, "HSETf2": {"HSET", "h", "f", "3"}, "HDELf": {"HDEL", "h", "f"}, "HLEN": {"HLEN", "h"}, "HGETf": {"HGET", "h", "f"},
+	"SADDa": {"SADD", "s", "a"}, "SADDb": {"SADD", "s", "b"}, "SREMa": {"SREM", "s", "a"}, "SCARD": {"SCARD", "s"},
+	"ZADD1a": {"ZADD", "z", "1", "a"}, "ZADD2b": {"ZADD", "z", "2", "b"}, "ZADD3a": {"ZADD", "z", "3", "a"}, "ZREMa": {"ZREM", "z", "a"}, "ZCARD": {"ZCARD", "z"},
+}
+
+func c16Int(n int) []byte { return append(append([]byte{':'}, redis.VsymItoa(n)...), '\r', '\n') }
+func c16Bulk(s string) []byte {
+	return append(append(append(append([]byte{'$'}, redis.VsymItoa(len(s))...), '\r', '\n'), s...), '\r', '\n')
+}
+
+func c16Index(s string, b byte) int {
+	for i := 0; i < len(s); i++ {
+		if s[i] == b {
+			return i
+		}
+	}
+	return -1
+}
+
+func c16Cut(s string, i int) string { return s[:i] + s[i+1:] }
+
+// c16CollApply: Redis semantics of one collection command on the model state.
+func c16CollApply(st c16cstate, cmd string) ([]byte, c16cstate) {
+	a := c16CollRequests[cmd]
+	switch a[0] {
+	case "LPUSH":
+		st.l = a[2] + st.l
+		return c16Int(len(st.l)), st
+	case "RPUSH":
+		st.l = st.l + a[2]
+		return c16Int(len(st.l)), st
+	case "LPOP":
+		if len(st.l) == 0 {
+			return []byte("$-1\r\n"), st
+		}
+		v := st.l[:1]
+		st.l = st.l[1:]
+		return c16Bulk(v), st
+	case "RPOP":
+		if len(st.l) == 0 {
+			return []byte("$-1\r\n"), st
+		}
+		v := st.l[len(st.l)-1:]
+		st.l = st.l[:len(st.l)-1]
+		return c16Bulk(v), st
+	case "LLEN":
+		return c16Int(len(st.l)), st
+	case "HSET":
+		if i := c16Index(st.hf, a[2][0]); i >= 0 {
+			st.hv = st.hv[:i] + a[3] + st.hv[i+1:]
+			return c16Int(0), st
+		}
+		st.hf, st.hv = st.hf+a[2], st.hv+a[3]
+		return c16Int(1), st
+	case "HDEL":
+		if i := c16Index(st.hf, a[2][0]); i >= 0 {
+			st.hf, st.hv = c16Cut(st.hf, i), c16Cut(st.hv, i)
+			return c16Int(1), st
+		}
+		return c16Int(0), st
+	case "HLEN":
+		return c16Int(len(st.hf)), st
+	case "HGET":
+		if i := c16Index(st.hf, a[2][0]); i >= 0 {
+			return c16Bulk(st.hv[i : i+1]), st
+		}
+		return []byte("$-1\r\n"), st
+	case "SADD":
+		if c16Index(st.s, a[2][0]) >= 0 {
+			return c16Int(0), st
+		}
+		st.s += a[2]
+		return c16Int(1), st
+	case "SREM":
+		if i := c16Index(st.s, a[2][0]); i >= 0 {
+			st.s = c16Cut(st.s, i)
+			return c16Int(1), st
+		}
+		return c16Int(0), st
+	case "SCARD":
+		return c16Int(len(st.s)), st
+	case "ZADD":
+		added := 1
+		if i := c16Index(st.z, a[3][0]); i >= 0 {
+			st.z, st.zs = c16Cut(st.z, i), c16Cut(st.zs, i)
+			added = 0
+		}
+		// insert by score, ties by member
+		pos := len(st.z)
+		for i := 0; i < len(st.z); i++ {
+			if st.zs[i] > a[2][0] || (st.zs[i] == a[2][0] && st.z[i] > a[3][0]) {
+				pos = i
+				break
+			}
+		}
+		st.z = st.z[:pos] + a[3] + st.z[pos:]
+		st.zs = st.zs[:pos] + a[2] + st.zs[pos:]
+		return c16Int(added), st
+	case "ZREM":
+		if i := c16Index(st.z, a[2][0]); i >= 0 {
+			st.z, st.zs = c16Cut(st.z, i), c16Cut(st.zs, i)
+			return c16Int(1), st
+		}
+		return c16Int(0), st
+	case "ZCARD":
+		return c16Int(len(st.z)), st
+	}
+	return nil, st
+}
+
+// c16CollFinal reads the collections back from the example store into a model state (canonical member order for the set and the hash).
+func c16CollFinal(s *Server) c16cstate {
+	db, _ := s.GetDatabase(0)
+	var st c16cstate
+	if r, ok := db.GetRecord("l"); ok {
+		if l, isL := r.Data.(*List); isL {
+			for _, e := range l.elements {
+				st.l += e
+			}
+		}
+	}
+	if r, ok := db.GetRecord("h"); ok {
+		if h, isH := r.Data.(Hash); isH {
+			for _, f := range []string{"f", "g"} {
+				if v, has := h[f]; has {
+					st.hf += f
+					st.hv += v
+				}
+			}
+		}
+	}
+	if r, ok := db.GetRecord("s"); ok {
+		if set, isS := r.Data.(*Set); isS {
+			for _, m := range []string{"a", "b"} {
+				for _, x := range set.members {
+					if x == m {
+						st.s += m
+					}
+				}
+			}
+		}
+	}
+	if r, ok := db.GetRecord("z"); ok {
+		if z, isZ := r.Data.(*ZSet); isZ {
+			for _, m := range z.members {
+				st.z += m.Member
+				st.zs += string(rune('0' + int(m.Score)))
+			}
+		}
+	}
+	return st
+}
+
+func c16Canon(st c16cstate) c16cstate {
+	// set members and hash fields in canonical order (f before g, a before b)
+	if st.s == "ba" {
+		st.s = "ab"
+	}
+	if st.hf == "gf" {
+		st.hf, st.hv = "fg", st.hv[1:]+st.hv[:1]
+	}
+	return st
+}
+
+// HarnessC16Coll: two clients, one collection command each, on the same list / hash / set / sorted
+// set of the example store (initially empty or holding one element). Replies and final contents
+// must equal one of the two sequential orders.
+func HarnessC16Coll() {
+	a, b := vsymParam("a"), vsymParam("b")
+	vsymTag("pair", a+"+"+b)
+	vsymTag("store", "example-collections")
+	vsymSchedBound(vsymParamInt("preempt", 2))
+	vsymSchedKinds("syncmap,go,sharedwrite,lock")
+	vsymUnwind(400)
+	s := NewServer()
+	var init c16cstate
+	if vsymChoice("initial", 2) == 1 {
+		// every collection starts with one element (built through the store's own commands, sequentially)
+		for _, c := range []string{"RPUSHc", "HSETg", "SADDb", "ZADD2b"} {
+			conn := redis.VsymNewConn(redis.VsymReqS(c16CollRequests[c]...))
+			redis.VsymServe(s.Server, conn)
+			_, init = c16CollApply(init, c)
+		}
+	}
+	ca, cb := redis.VsymNewConn(redis.VsymReqS(c16CollRequests[a]...)), redis.VsymNewConn(redis.VsymReqS(c16CollRequests[b]...))
+	done := make([]bool, 2)
+	go func() {
+		redis.VsymServe(s.Server, ca)
+		vsymSignal(&done[0])
+	}()
+	go func() {
+		redis.VsymServe(s.Server, cb)
+		vsymSignal(&done[1])
+	}()
+	vsymAwait(&done[0])
+	vsymAwait(&done[1])
+	final := c16Canon(c16CollFinal(s))
+	ra1, s1 := c16CollApply(init, a)
+	rb1, s1 := c16CollApply(s1, b)
+	rb2, s2 := c16CollApply(init, b)
+	ra2, s2 := c16CollApply(s2, a)
+	ab := redis.VsymBytesEq(ca.Out(), ra1) && redis.VsymBytesEq(cb.Out(), rb1) && final == c16Canon(s1)
+	ba := redis.VsymBytesEq(ca.Out(), ra2) && redis.VsymBytesEq(cb.Out(), rb2) && final == c16Canon(s2)
 	vsymAssert(ab || ba, "history-equals-a-sequential-order")
 	vsymCover("end")
 }
